@@ -50,15 +50,21 @@ SPEC = dict(
           "goroutine until the last reference is released; every operation is emitted as its atomic model steps plus a snapshot of the real "
           "cache (LRU order, refs/isClosed/Close-count per entry); non-trivial = the schedule has a blocked Remove and an eviction or a "
           "replace-on-closed. "
-          "history cases: micro rounds of 3 goroutines x 2-3 operations {PutODSQ4, PutODS, GetByHeight, cached GetByHeight, HasByHeight, "
-          "HasQ4ByHash, RemoveODSQ4, RemoveQ4} over 2 heights with an optional sequential prologue, recent cache 0-2, cached store 1-2; the "
-          "recorded invocation/return order with results and the content at rest before/after is the case; a read that overlaps a put of "
-          "its height is recorded with an unconstrained result (put publishes to the cache before the files exist); non-trivial = two "
+          "history cases: 160 (quick) micro rounds of 3 goroutines x 2-3 operations {PutODSQ4, PutODS, GetByHeight, cached GetByHeight, "
+          "HasByHeight, HasQ4ByHash, RemoveODSQ4, RemoveQ4} over 2 heights with an optional sequential prologue, recent cache 0-2, cached store "
+          "1-2; the recorded invocation/return order with results and the content at rest before/after is the case; a read that overlaps a "
+          "put of its height is recorded with an unconstrained result (put publishes to the cache before the files exist); non-trivial = two "
           "operations of different goroutines on one height overlap. "
-          "stress (L3 only): directed rounds 'lazyq4' (4 readers holding accessors of a k=32 block + 2 arriving readers while PutODSQ4 adds / "
-          "RemoveODSQ4+PutODSQ4 re-creates its parity file), 'cachedremove' (cached GetByHeight against RemoveODSQ4), and stress rounds of 6-10 "
-          "goroutines x 10-19 operations over 3 heights (h, h+1024, h+2048) with up to 5 reads per accessor (sample, axis half, shares, stream, "
-          "row namespace data, roots/hash/size, every byte compared); shapes interleaved, cut at a 24 s budget."),
+          "stress (L3 only, plain binary and -race binary): 'reput' (sequential: a stored block is put again, all four PutODS/PutODSQ4 "
+          "combinations - deterministic replay for the descriptor oracle), directed rounds 'lazyq4' (4 readers holding accessors of a k=32 "
+          "block (k=8 under the race detector in the quick tier) + 2 arriving readers while PutODSQ4 adds / RemoveODSQ4+PutODSQ4 re-creates "
+          "its parity file; the readers signal on a channel when they have their accessor and the writer opens the gate), 'cachedremove' "
+          "(cached GetByHeight against RemoveODSQ4), and stress rounds of 6-10 goroutines x 10-19 operations over 3 heights (h, h+1024, "
+          "h+2048) with up to 5 reads per accessor (sample, axis half, shares, stream, row namespace data, roots/hash/size, every byte "
+          "compared); shapes interleaved; the quick plan (264 rounds) takes about 6 s in the plain binary and is cut at 14 s there and at "
+          "10 s in the -race binary (a loaded machine does fewer rounds, never a different verdict). After every round: all blocks removed, "
+          "the goroutines the caches spawned for evictions waited for (goroutine dump, no sleep), then /proc/self/fd must hold no file of "
+          "the store directory."),
     trusted_base=[
         "translator /verif/translators/locks in group mode (group.go + main.go, go/ast+go/types, ~1500 lines): imports between the four packages type-checked for real, other imports faked; locks named by declaring type+field, slice elements per family ('[]'); lock-returning helpers, ordered lock slices bound by composite literals (multiLock) and function-typed parameters (cache loaders) resolved syntactically; calls through interfaces of the group resolved by method name (superset); values of third-party types (os.File, the LRU) are opaque: the LRU's internal mutex and the order in which hashicorp/golang-lru calls the eviction callback (outside its lock) are not analysed; receives from local channels, contexts and timers are not followed",
         "the edges out of the pseudo lock wait:cache.accessor.done (what a reader may lock while it holds a cache reference: accessor.lock, the cache stripes, proofsCache, ODS and ODSQ4 locks) are written by hand in Store/ConcLocks.v; the hypothesis of C08_store_no_deadlock (every goroutine follows the graph, in particular: no call back into the store while holding an accessor) is an obligation on callers, not verified for the rest of celestia-node; RWMutex is treated as exclusive",
@@ -66,7 +72,7 @@ SPEC = dict(
         "interleavings INSIDE the real cache that the scripted schedules cannot force (two goroutines between lru.Get and addRef, etc.) are covered by the theorems over the model only, and by the concurrent stress",
         "model Store/StoreSpec.v (content per height, operation results) hand-written after store/store.go; tied by the histories recorded from the real store; a read overlapping a put of the same height is unconstrained (design: put publishes the in-memory accessor before the files exist, store.go:140-148); blocks are fixed per height (a height never gets two different blocks)",
         "Store/ConcAtomic.v models the mutators' disk effects (create ODS/Q4, link; unlink, delete) under an exclusive per-stripe lock; the caches in front of the files and the hash-stripe lock are not in that model; the file system is a map with atomic single effects",
-        "Go scheduling: which interleavings occur is explored by stress (seed-derived scripts, directed gates), not proved and not replayable step by step; a replay re-runs the round's scripts up to 300 times; data-race freedom = no report of the Go race detector during the run (harness built with -race); all puts of a height pass one square object whose roots were computed first (as callers of Put do), so the published in-memory accessor is read-only",
-        "the watchdog reports an operation that has not returned after 40 s (the cache force-closes after 60 s); file descriptors are counted in /proc/self/fd by path prefix of the store directory, first without and then after runtime.GC()",
+        "Go scheduling: which interleavings occur is explored by stress (seed-derived scripts, directed gates), not proved and not replayable step by step; a replay re-runs the round's scripts up to 300 times; data-race freedom = no report of the Go race detector during TestVerifC08Race (the same rounds in a binary built with -race; at its start a child process commits a deliberate race to prove that reports reach the harness); all puts of a height pass one square object whose roots were computed first (as callers of Put do), so the published in-memory accessor is read-only",
+        "the watchdog reports a call into the store (operation, read through an accessor, Close) that has not returned after 40 s (the cache force-closes after 60 s); only calls into the code under test are timed, never the harness's own waits; file descriptors are counted in /proc/self/fd by path prefix of the store directory once the store is at rest: every operation returned, every accessor closed, every block removed and no goroutine with a frame of the store packages left (the eviction goroutines `go ac.close()` are waited for, up to 90 s, then reported as evict-hangs); a descriptor still open then was dropped without Close(): sig fd-leak-until-gc if a garbage collection (os.File finalizer) releases it, fd-leak otherwise; for the micro rounds, which share one store per cache configuration so that content carries over, the count is taken once after the last of them",
     ],
 )
